@@ -2,7 +2,7 @@
     Statements only; proofs in Proofs/OpsProofs.v and Proofs/SeqPathProofs.v.
     Models: Model/Start.v (consumer side of a link), Model/Ops.v (operator chains, Reorder). *)
 From Noir Require Import Base.Elem Model.Start Model.Ops Proofs.StartSpec Proofs.WinCountSpec
-  Proofs.OpsSpec Proofs.OpsProofs Proofs.SeqPathProofs Model.Ops2 Proofs.Ops2Proofs.
+  Proofs.OpsSpec Proofs.OpsProofs Proofs.SeqPathProofs Model.Ops2 Proofs.Ops2Proofs Corr.ZooCorr Proofs.ZooProofs.
 Open Scope Z_scope.
 
 (** A single producer replica's stream, cut into batches in ANY way (fixed 1..n, adaptive,
@@ -74,6 +74,13 @@ Proof. intros A tg wg l H. split; [exact (add_ts_payloads tg wg l H)|exact (add_
 Theorem C16_drop_timestamps : forall {A} (l : list (elem A)),
   payloads (run drop_ts_machine l) = payloads l /\ no_ts (run drop_ts_machine l).
 Proof. intros A l. split; [exact (drop_ts_payloads l)|exact (drop_ts_no_ts l)]. Qed.
+(** The chains of the correspondence check ("operator zoo"): the model the implementation is
+    compared with element by element ([zoo_machine], a composition of push machines) and the
+    oracle its values are compared with ([zoo_spec], plain list functions) agree for EVERY
+    chain without add_timestamps and every input. *)
+Theorem C16_zoo_model_is_iterator_chain : forall (ops : list zop) (l : list (elem Z)),
+  has_add_ts ops = false -> payloads (run (zoo_machine ops) l) = zoo_spec ops (payloads l).
+Proof. exact zoo_sound. Qed.
 Example C16_elementwise_example :
   run (rich_flat_map1_machine (fun c v => (c + 1, if Z.odd (c + 1) then [v; c + 1] else [v])) 0)
       [Tst 7 1; Wm 1; Item 8; FAR; Tst 9 4; FAR; Terminate]
@@ -93,3 +100,4 @@ Print Assumptions C16_elementwise_is_iterator_chain.
 Print Assumptions C16_keyed_elementwise_per_key.
 Print Assumptions C16_add_timestamps.
 Print Assumptions C16_drop_timestamps.
+Print Assumptions C16_zoo_model_is_iterator_chain.
